@@ -441,6 +441,41 @@ fn c16(rng: &mut Rng, tier: &str, idx: usize) -> Case {
         c.nontrivial = true;
         return c;
     }
+    if idx % 5 == 4 {
+        // binary route: the same records in k different orders inside the sections of a v1/v2/v3
+        // file (terms with empty names, obsolete flags, records without terms included)
+        let mut c = Case::new("binary-record-order");
+        let k = if tier == "quick" { 3 } else { 6 };
+        let max_terms = *rng.pick(&[4usize, 8, 15, 25]);
+        let (mut f, _) = gen_facts(rng, &DagOpts { max_terms, with_roots: true, max_recs: 5 });
+        if rng.chance(1, 2) {
+            // make sure an unnamed term exists
+            let i = rng.below(f.terms.len() as u64) as usize;
+            f.terms[i].1 = String::new();
+        }
+        let flags = gen_flags(rng, &mut f);
+        let (multi, _) = facts_stats(&f, &mut c);
+        let fv = rng.range(1, 3) as u8;
+        for s in 0..k {
+            let mut r = Rng::fork(rng.next(), s);
+            if s == 1 {
+                // one order with the terms exactly reversed (last record = first term)
+                let mut g = f.clone();
+                g.terms.reverse();
+                facts_to_fops(&mut r, &g, &flags, fv, s as u32, false, &mut c);
+            } else {
+                facts_to_fops(&mut r, &f, &flags, fv, s as u32, s > 0, &mut c);
+            }
+            if s > 0 {
+                c.op(format!("same 0 {s}"));
+            }
+        }
+        c.op("dump 0".to_string());
+        c.stat(&format!("binary_v{fv}"), 1);
+        c.stat("permutations", k);
+        c.nontrivial = multi > 0 || f.terms.len() > 3;
+        return c;
+    }
     let mut c = Case::new("permutations");
     let k = if tier == "quick" { 4 } else { 12 };
     let with_roots = rng.chance(1, 2);
@@ -485,6 +520,36 @@ fn c19(rng: &mut Rng, _idx: usize) -> Case {
     }
     f.edges.sort_unstable();
     f.edges.dedup();
+    if missing > 1 && rng.chance(1, 5) {
+        // HP:118 need not be a direct child of HP:1: detach it, or hang it below another branch
+        f.edges.retain(|e| !(e.0 == 1 && e.1 == 118));
+        if rng.chance(2, 3) {
+            if let Some(mid) = others.iter().find(|o| f.edges.iter().any(|e| e.0 == 1 && e.1 == **o) && !f.edges.iter().any(|e| e.0 == 118 && e.1 == **o)) {
+                // keep the graph acyclic: `mid` must not be below 118
+                let below_118 = |x: u32, f: &Facts| -> bool {
+                    let mut st = vec![x];
+                    let mut seen = std::collections::BTreeSet::new();
+                    while let Some(y) = st.pop() {
+                        if y == 118 {
+                            return true;
+                        }
+                        if seen.insert(y) {
+                            for e in &f.edges {
+                                if e.1 == y {
+                                    st.push(e.0);
+                                }
+                            }
+                        }
+                    }
+                    false
+                };
+                if !below_118(*mid, &f) {
+                    f.edges.push((*mid, 118));
+                }
+            }
+        }
+        c.stat("phenotype_root_not_direct_child_of_root", 1);
+    }
     if missing == 0 {
         f.terms.retain(|t| t.0 != 1);
         f.edges.retain(|e| e.0 != 1 && e.1 != 1);
